@@ -450,12 +450,23 @@ impl<'a> IrEmitter<'a> {
                 } else if is_stdlib_testing {
                     vec![quote! { incan_stdlib }, quote! { testing }]
                 } else {
-                    path.iter()
-                        .map(|s| {
-                            let ident = format_ident!("{}", s);
-                            quote! { #ident }
-                        })
-                        .collect()
+                    let mut toks = Vec::with_capacity(path.len());
+                    for s in path {
+                        // `import python "pkg"` carries an arbitrary string: refuse what is not an identifier
+                        // instead of panicking inside format_ident!
+                        let mut chars = s.chars();
+                        let valid = matches!(chars.next(), Some(c) if c == '_' || c.is_ascii_alphabetic())
+                            && chars.all(|c| c == '_' || c.is_ascii_alphanumeric());
+                        if !valid {
+                            return Err(EmitError::Unsupported(format!(
+                                "import path segment {:?} is not a valid identifier",
+                                s
+                            )));
+                        }
+                        let ident = format_ident!("{}", s);
+                        toks.push(quote! { #ident });
+                    }
+                    toks
                 };
                 let mut path_tokens: Vec<TokenStream> = Vec::new();
                 let apply_prefix = !(is_stdlib_web || is_stdlib_testing);
